@@ -615,7 +615,10 @@ def sec_params(asb):
 # --------------------------------------------------------------------------- covered content (the property text)
 
 def _hashable(val):
-    return cbor2.dumps(val, canonical=True)
+    try:
+        return cbor2.dumps(val, canonical=True)
+    except Exception:
+        return repr(val).encode('utf-8')      # cbor2 break marker / undefined objects from odd flips
 
 
 def covered_view(raw, sec_type):
